@@ -109,6 +109,11 @@ impl World {
                             break;
                         }
                     }
+                    Status::Gone if st == BlockState::Live => {
+                        // a new_cyclic whose closure panicked: "all memory is released" (C14), injected panic or not
+                        failure = Some(("O-CYCLIC.leak", format!("object {} was never constructed (its new_cyclic closure panicked) but its allocation was not released", i)));
+                        break;
+                    }
                     Status::Dropped | Status::Unwrapped | Status::Gone => {
                         if st == BlockState::Live && !ob.tainted && !unwound {
                             let o = if ob.status == Status::Gone { "O-CYCLIC.leak" } else { "O-FREED.box" };
@@ -141,6 +146,10 @@ impl World {
                     }
                     if !should_be_free && sst != BlockState::Live {
                         failure = Some(("O-SIDE.early", format!("the weak side record of object {} was released although {} Weak pointer(s) exist / the allocation is alive", i, weak_n)));
+                        break;
+                    }
+                    if should_be_free && sst == BlockState::Live && ob.status == Status::Gone {
+                        failure = Some(("O-CYCLIC.side-leak", format!("the weak side record of object {} (whose new_cyclic closure panicked, no Weak clone kept) was not released", i)));
                         break;
                     }
                     if should_be_free && sst == BlockState::Live && !ob.tainted && !unwound {
@@ -236,6 +245,11 @@ impl World {
                 (None, None) => {}
                 (Some(cc), Some(t)) => queue.push((cc as *const AnyCc, *t)),
                 (a, b) => harness_error(format!("slot {} of object {}: real {} vs mirror {:?}", s, o, a.is_some(), b)),
+            }
+        }
+        for e in unsafe { &*node.bulk.as_ptr() }.iter().take(4) {
+            if let (Some(cc), Some(t)) = (e.get(), m.objs[o as usize].edges.get(&e.key)) {
+                queue.push((cc as *const AnyCc, *t));
             }
         }
         for e in unsafe { &*node.pins.0.as_ptr() }.iter() {
@@ -508,7 +522,7 @@ impl World {
                 }
                 let ob = &m.objs[i];
                 for (k, t) in ob.edges.iter() {
-                    let untraced = (k & 0xFF00_0000) != KEY_SLOT;
+                    let untraced = (k & 0xFF00_0000) != KEY_SLOT && (k & 0xFF00_0000) != KEY_BULK;
                     if untraced && !keep[*t as usize] {
                         keep[*t as usize] = true;
                         stack.push(*t);
